@@ -1,4 +1,649 @@
-import ZtypV.Spec
+/-
+C17 — Iterators agree with indexed access.
+
+For every list, vector, bitfield and container view, the read-only (stack based) iterator, the
+index-based iterator and the indexed getters yield exactly the collection's length many
+components, in order and with identical values; each iterator reports its end exactly when the
+length is reached, keeps reporting it, and reports an error rather than a wrong component when
+data is missing.
+
+Everything here is about ARBITRARY backing trees (no assumption that the tree was built by a
+constructor): indexed access is `subtreeGet anchor depth k` (= `SubtreeView.GetNode(k)`, i.e.
+`Getter` along the `depth`-bit path of `k`), which may fail with a navigation error on partial
+trees; the iterators then fail with the *same* error at exactly that position.
+
+Vocabulary (ZtypV/Proofs/IterNav.lean):
+* `runSteps next n s`   the outputs of `n` successive `Next()` calls from state `s`
+* `iterSpec get len k n` the required outputs when about to serve component `k`: `item (get k)`,
+  `item (get (k+1))`, … while `k < len` and `get` succeeds; `done` for ever from `len` on; a
+  failing `get k` is reported as `err e` with the same `e`, for ever (nothing is skipped)
+* `StackInv`/`StackFull` the navigation invariant of the ancestor stack
+* `indexedOut t n k`    what the index-based `Iter()` shows at `k`: the typed getter `Get(k)`
+-/
+import ZtypV.Proofs.IterNav
 namespace ZtypV.Props.C17
-theorem placeholder : True := trivial
+open ZtypV ZtypV.View ZtypV.View.Iter
+
+/-! ### 1. navigation -/
+
+/-- The stack navigation step, any tree: under the invariant, moving to bottom node `i`
+    (backtrack to the height given by the highest bit of `i xor (i-1)`, go right once, then
+    left to the bottom) returns exactly what indexed access along the `depth`-bit path of `i`
+    returns and leaves the complete ancestor stack of `i`; if indexed access fails the step
+    fails with the same error — never a wrong node, never a panic. -/
+theorem C17_nav_step (anchor : Node) (depth : Nat) (stack : Array Node) (i : Nat)
+    (hd : depth < 256) (hi : i < 2 ^ depth) (inv : StackInv anchor depth stack i) :
+    match getNode anchor (bitsOf i depth) with
+    | .ok n => ∃ st', navStep anchor depth stack i = .ok (n, st') ∧ StackFull anchor depth st' i
+    | .error e => navStep anchor depth stack i = .error e :=
+  navStep_spec anchor depth stack i hd hi inv
+
+/-- the invariant holds initially and is re-established for the next index (and for a retry
+    of the same index) by a successful step -/
+theorem C17_nav_inv (anchor : Node) (depth : Nat) (stack : Array Node) (i : Nat) (x : Node) :
+    StackInv anchor depth (Array.replicate depth x) 0 ∧
+    (StackFull anchor depth stack i → StackInv anchor depth stack (i + 1)) ∧
+    (StackFull anchor depth stack i → StackInv anchor depth stack i) :=
+  ⟨StackInv_new anchor depth x, StackFull.inv_succ, StackFull.inv_same⟩
+
+/-- the arithmetic behind the backtracking height: for `i = 2^t (2m+1)`, `i xor (i-1)` has bit
+    length `t+1`, and the `depth`-bit paths of `i-1` and `i` share the path of `m`, after which
+    `i` goes right once and then `t` times left -/
+theorem C17_backtrack_height (t m a : Nat) :
+    bitLen ((2 ^ t * (2 * m + 1)) ^^^ (2 ^ t * (2 * m + 1) - 1)) = t + 1 ∧
+    bitsOf (2 ^ t * (2 * m + 1)) (a + (t + 1)) = bitsOf m a ++ true :: List.replicate t false ∧
+    ∃ q, q.length = t + 1 ∧ bitsOf (2 ^ t * (2 * m + 1) - 1) (a + (t + 1)) = bitsOf m a ++ q :=
+  ⟨bitLen_xor_pred t m, bitsOf_odd_part t m a, bitsOf_pred_odd_part t m a⟩
+
+/-! ### 2. the node iterator (`nodeReadonlyIter`) -/
+
+/-- construction succeeds exactly when there is nothing to iterate or the subtree is deep
+    enough (`length ≤ 2^depth`, `depth < 64`) -/
+theorem C17_node_constructed (anchor : Node) (length depth : Nat) :
+    (NodeIt.new anchor length depth).bad = false ↔
+      (length = 0 ∨ (depth < 64 ∧ length ≤ 2 ^ depth)) :=
+  ⟨node_new_ok, node_new_not_bad anchor length depth⟩
+
+/-- MAIN (node iterator, any tree, any number of calls): the successfully constructed
+    iterator produces exactly the `iterSpec` sequence of indexed access `GetNode(k)`. -/
+theorem C17_node_iter (anchor : Node) (length depth : Nat)
+    (hb : (NodeIt.new anchor length depth).bad = false) (n : Nat) :
+    runSteps NodeIt.next n (NodeIt.new anchor length depth) =
+      iterSpec (fun k => subtreeGet anchor depth k) length 0 n :=
+  node_run anchor length depth hb n
+
+/-- … in the form asked for: `length ≤ 2^depth`, `depth < 64` -/
+theorem C17_node_iter' (anchor : Node) (length depth : Nat) (hd : depth < 64)
+    (hl : length ≤ 2 ^ depth) (n : Nat) :
+    runSteps NodeIt.next n (NodeIt.new anchor length depth) =
+      iterSpec (fun k => subtreeGet anchor depth k) length 0 n :=
+  node_run anchor length depth (node_new_not_bad anchor length depth (Or.inr ⟨hd, hl⟩)) n
+
+/-- all `length` indexed accesses succeed: the iterator yields exactly `length` items, in
+    order, equal to indexed access, and then `done` for ever -/
+theorem C17_node_iter_all_ok (anchor : Node) (length depth : Nat)
+    (hb : (NodeIt.new anchor length depth).bad = false) (f : Nat → Node)
+    (hok : ∀ k, k < length → subtreeGet anchor depth k = .ok (f k)) (n : Nat) :
+    runSteps NodeIt.next n (NodeIt.new anchor length depth) =
+      (List.range (min n length)).map (fun k => Step.item (f k)) ++
+        List.replicate (n - length) .done := by
+  rw [C17_node_iter anchor length depth hb n]
+  exact iterSpec_all_ok _ f length hok n
+
+/-- indexed access `j < length` is the first to fail: `j` correct items, then that error (and
+    no wrong node, no `done`) for ever -/
+theorem C17_node_iter_first_err (anchor : Node) (length depth : Nat)
+    (hb : (NodeIt.new anchor length depth).bad = false) (f : Nat → Node) (j : Nat) (e : Err)
+    (hj : j < length) (hok : ∀ k, k < j → subtreeGet anchor depth k = .ok (f k))
+    (he : subtreeGet anchor depth j = .error e) (n : Nat) :
+    runSteps NodeIt.next n (NodeIt.new anchor length depth) =
+      (List.range (min n j)).map (fun k => Step.item (f k)) ++ List.replicate (n - j) (.err e) := by
+  rw [C17_node_iter anchor length depth hb n]
+  exact iterSpec_first_err _ f length j e hj hok he n
+
+/-- the end is sticky: `Next()` on an exhausted iterator answers `done` and changes nothing -/
+theorem C17_node_end_sticky (it : NodeIt) (hb : it.bad = false) (hi : it.length ≤ it.i) :
+    it.next = (.done, it) := by
+  unfold NodeIt.next
+  rw [hb]
+  simp only [Bool.false_eq_true, if_false]
+  rw [if_pos (by simpa using hi)]
+
+/-- a failed construction (`ErrNodeIter`) answers with an error for ever -/
+theorem C17_node_bad (it : NodeIt) (hb : it.bad = true) : it.next = (.err .other, it) := by
+  unfold NodeIt.next
+  rw [hb]
+  rfl
+
+/-! ### 3. packed basic elements and bits -/
+
+/-- construction of `basicElemReadonlyIter` succeeds only if there is nothing to iterate or
+    the subtree is deep enough for `length` packed elements -/
+theorem C17_basic_constructed (anchor : Node) (length depth size : Nat)
+    (hb : (BasicIt.new anchor length depth size).bad = false) :
+    length = 0 ∨ (depth < 64 ∧ 0 < 32 / size ∧ length ≤ 2 ^ depth * (32 / size)) :=
+  basic_new_ok hb
+
+/-- MAIN (packed element iterator, any tree): element `k` is `BasicViewFromBacking` at
+    sub-index `k % perNode` of the chunk that indexed access `GetNode(k / perNode)` returns
+    (`basicAt`); exactly `length` of them in order, then `done`; same error when the chunk is
+    missing or is not a leaf. -/
+theorem C17_basic_iter (anchor : Node) (length depth size : Nat)
+    (hb : (BasicIt.new anchor length depth size).bad = false) (n : Nat) :
+    runSteps BasicIt.next n (BasicIt.new anchor length depth size) =
+      iterSpec (basicAt size anchor depth) length 0 n :=
+  basic_run anchor length depth size hb n
+
+theorem C17_basic_iter_all_ok (anchor : Node) (length depth size : Nat)
+    (hb : (BasicIt.new anchor length depth size).bad = false) (f : Nat → Val)
+    (hok : ∀ k, k < length → basicAt size anchor depth k = .ok (f k)) (n : Nat) :
+    runSteps BasicIt.next n (BasicIt.new anchor length depth size) =
+      (List.range (min n length)).map (fun k => Step.item (f k)) ++
+        List.replicate (n - length) .done := by
+  rw [C17_basic_iter anchor length depth size hb n]
+  exact iterSpec_all_ok _ f length hok n
+
+theorem C17_basic_iter_first_err (anchor : Node) (length depth size : Nat)
+    (hb : (BasicIt.new anchor length depth size).bad = false) (f : Nat → Val) (j : Nat) (e : Err)
+    (hj : j < length) (hok : ∀ k, k < j → basicAt size anchor depth k = .ok (f k))
+    (he : basicAt size anchor depth j = .error e) (n : Nat) :
+    runSteps BasicIt.next n (BasicIt.new anchor length depth size) =
+      (List.range (min n j)).map (fun k => Step.item (f k)) ++ List.replicate (n - j) (.err e) := by
+  rw [C17_basic_iter anchor length depth size hb n]
+  exact iterSpec_first_err _ f length j e hj hok he n
+
+theorem C17_basic_end_sticky (it : BasicIt) (hb : it.bad = false) (hi : it.length ≤ it.i) :
+    it.next = (.done, it) := by
+  unfold BasicIt.next
+  rw [hb]
+  simp only [Bool.false_eq_true, if_false]
+  rw [if_pos (by simpa using hi)]
+
+/-- the indexed side of `C17_basic_iter` is literally what `readBasics` (the getter loop used
+    by `viewVal`) reads -/
+theorem C17_basicAt_is_indexed (size : Nat) (anchor : Node) (depth len : Nat) :
+    readBasics size anchor depth len = (List.range len).mapM (basicAt size anchor depth) := rfl
+
+/-- construction of `bitReadonlyIter` succeeds only if there is nothing to iterate or the
+    subtree is deep enough for `length` bits -/
+theorem C17_bit_constructed (anchor : Node) (length depth : Nat)
+    (hb : (BitIt.new anchor length depth).bad = false) :
+    length = 0 ∨ (depth < 64 ∧ length ≤ 2 ^ depth * 256) :=
+  bit_new_ok hb
+
+/-- MAIN (bit iterator, any tree): bit `k` is bit `k % 256` of the chunk that indexed access
+    `GetNode(k / 256)` returns (`bitAt`); the uint8 counter wraps exactly at 256 bits (the
+    invariant `BitInv` pins it to `k % 256`); exactly `length` bits in order, then `done`. -/
+theorem C17_bit_iter (anchor : Node) (length depth : Nat)
+    (hb : (BitIt.new anchor length depth).bad = false) (n : Nat) :
+    runSteps BitIt.next n (BitIt.new anchor length depth) =
+      iterSpec (bitAt anchor depth) length 0 n :=
+  bit_run anchor length depth hb n
+
+theorem C17_bit_iter_all_ok (anchor : Node) (length depth : Nat)
+    (hb : (BitIt.new anchor length depth).bad = false) (f : Nat → Bool)
+    (hok : ∀ k, k < length → bitAt anchor depth k = .ok (f k)) (n : Nat) :
+    runSteps BitIt.next n (BitIt.new anchor length depth) =
+      (List.range (min n length)).map (fun k => Step.item (f k)) ++
+        List.replicate (n - length) .done := by
+  rw [C17_bit_iter anchor length depth hb n]
+  exact iterSpec_all_ok _ f length hok n
+
+theorem C17_bit_iter_first_err (anchor : Node) (length depth : Nat)
+    (hb : (BitIt.new anchor length depth).bad = false) (f : Nat → Bool) (j : Nat) (e : Err)
+    (hj : j < length) (hok : ∀ k, k < j → bitAt anchor depth k = .ok (f k))
+    (he : bitAt anchor depth j = .error e) (n : Nat) :
+    runSteps BitIt.next n (BitIt.new anchor length depth) =
+      (List.range (min n j)).map (fun k => Step.item (f k)) ++ List.replicate (n - j) (.err e) := by
+  rw [C17_bit_iter anchor length depth hb n]
+  exact iterSpec_first_err _ f length j e hj hok he n
+
+theorem C17_bit_end_sticky (it : BitIt) (hb : it.bad = false) (hi : it.length ≤ it.i) :
+    it.next = (.done, it) := by
+  unfold BitIt.next
+  rw [hb]
+  simp only [Bool.false_eq_true, if_false]
+  rw [if_pos (by simpa using hi)]
+
+theorem C17_bitAt_is_indexed (anchor : Node) (depth len : Nat) :
+    readBits anchor depth len = (List.range len).mapM (bitAt anchor depth) := rfl
+
+/-! ### 4. the index-based iterator -/
+
+/-- `Iter()`: the typed getter `Get(k)` for `k = 0 … length-1` in order (every call advances,
+    also after an error), then `done` for ever -/
+theorem C17_indexed_iter (t : Ty) (n : Node) (length m : Nat) :
+    runSteps AnyIt.next m (.indexed t n length 0) =
+      (List.range (min m length)).map (indexedOut t n) ++ List.replicate (m - length) .done := by
+  rw [indexed_run, outSeq_closed, Nat.sub_zero, List.range_eq_range']
+
+theorem C17_indexed_end_sticky (t : Ty) (n : Node) (length i : Nat) (hi : length ≤ i) :
+    AnyIt.next (.indexed t n length i) = (.done, .indexed t n length i) := by
+  rw [indexed_next, if_neg (by omega)]
+
+/-! ### 5. the client's view: read-only iterator = index-based iterator -/
+
+/-- `elemReadonlyIter` / `fieldReadonlyIter` (node iterator + `ViewFromBacking` of the element
+    type at that position), any tree: position `k` shows the element view over the node that
+    indexed access returns; a failing access is an error that is repeated -/
+theorem C17_ro_nodes (anchor : Node) (length depth : Nat)
+    (hb : (NodeIt.new anchor length depth).bad = false) (ety : Nat → Option Ty) (m : Nat) :
+    runSteps AnyIt.next m (.nodes (NodeIt.new anchor length depth) ety) =
+      nodesSeq (fun j => subtreeGet anchor depth j) ety length 0 m :=
+  anyNodes_run anchor length depth hb ety m
+
+/-- packed / bit read-only iterators as the client sees them -/
+theorem C17_ro_basics (anchor : Node) (length depth size : Nat) (t : Ty)
+    (hb : (BasicIt.new anchor length depth size).bad = false) (m : Nat) :
+    runSteps AnyIt.next m (.basics (BasicIt.new anchor length depth size) t) =
+      (iterSpec (basicAt size anchor depth) length 0 m).map (stepOut (Out.val t)) := by
+  rw [anyBasics_run, basic_run anchor length depth size hb m]
+
+theorem C17_ro_bits (anchor : Node) (length depth : Nat)
+    (hb : (BitIt.new anchor length depth).bad = false) (m : Nat) :
+    runSteps AnyIt.next m (.bits (BitIt.new anchor length depth)) =
+      (iterSpec (bitAt anchor depth) length 0 m).map (stepOut Out.bit) := by
+  rw [anyBits_run, bit_run anchor length depth hb m]
+
+/-- vectors of complex elements: whenever every `Get(j)`, `j < k`, succeeds, `ReadonlyIter()`
+    and `Iter()` show the same sequence, for any number of calls -/
+theorem C17_ro_eq_indexed_vector (e : Ty) (k : Nat) (n : Node) (hnb : isBasicElem e = false)
+    (hall : ∀ j, j < k → ∃ x, getElemNode (.vector e k) n j = .ok x) (m : Nat) :
+    runSteps AnyIt.next m (start (.vector e k) n true) =
+      runSteps AnyIt.next m (start (.vector e k) n false) := by
+  have h1 : start (.vector e k) n true =
+      .nodes (NodeIt.new n k (coverDepth k)) (fun _ => some e) := by
+    unfold start; simp [hnb]
+  have h2 : start (.vector e k) n false = .indexed (.vector e k) n k 0 := by
+    unfold start; simp
+  rw [h1, h2]
+  apply ro_eq_indexed_core _ _ _ _ _ _ (fun _ h => by cases h) (fun _ h => by cases h)
+  intro j hj
+  obtain ⟨x, hx⟩ := hall j hj
+  rw [getElemNode_vector_complex e k n j hj hnb] at hx ⊢
+  cases hc : subtreeGet n (coverDepth k) j with
+  | error err => rw [hc] at hx; cases hx
+  | ok c => exact ⟨e, c, rfl, rfl, rfl⟩
+
+/-- containers -/
+theorem C17_ro_eq_indexed_container (fs : List Ty) (n : Node)
+    (hall : ∀ j, j < fs.length → ∃ x, getElemNode (.container fs) n j = .ok x) (m : Nat) :
+    runSteps AnyIt.next m (start (.container fs) n true) =
+      runSteps AnyIt.next m (start (.container fs) n false) := by
+  have h1 : start (.container fs) n true =
+      .nodes (NodeIt.new n fs.length (coverDepth fs.length)) (fun i => fs[i]?) := by
+    unfold start; simp
+  have h2 : start (.container fs) n false = .indexed (.container fs) n fs.length 0 := by
+    unfold start; simp
+  rw [h1, h2]
+  apply ro_eq_indexed_core _ _ _ _ _ _ (fun _ h => by cases h) (fun _ h => by cases h)
+  intro j hj
+  obtain ⟨x, hx⟩ := hall j hj
+  have hf : fs[j]? = some fs[j] := List.getElem?_eq_getElem hj
+  rw [getElemNode_container fs n j _ hf] at hx ⊢
+  cases hc : subtreeGet n (coverDepth fs.length) j with
+  | error err => rw [hc] at hx; cases hx
+  | ok c => exact ⟨fs[j], c, rfl, rfl, hf⟩
+
+/-- lists of complex elements (if `Length()` fails both iterators are the failed iterator) -/
+theorem C17_ro_eq_indexed_list (e : Ty) (lim : Nat) (n : Node) (hnb : isBasicElem e = false)
+    (hall : ∀ ll, listLength n lim = .ok ll →
+      ∀ j, j < ll → ∃ x, getElemNode (.list e lim) n j = .ok x) (m : Nat) :
+    runSteps AnyIt.next m (start (.list e lim) n true) =
+      runSteps AnyIt.next m (start (.list e lim) n false) := by
+  cases hll : listLength n lim with
+  | error err =>
+    have h1 : ∀ ro, start (.list e lim) n ro = .failed := by
+      intro ro; unfold start; simp [hll]
+    rw [h1, h1]
+  | ok ll =>
+    obtain ⟨⟨l, r, rfl⟩, hle⟩ := listLength_ok hll
+    have h1 : start (.list e lim) (.pair l r) true =
+        .nodes (NodeIt.new l ll (coverDepth lim)) (fun _ => some e) := by
+      unfold start; simp [hll, hnb]
+    have h2 : start (.list e lim) (.pair l r) false = .indexed (.list e lim) (.pair l r) ll 0 := by
+      unfold start; simp [hll]
+    rw [h1, h2]
+    apply ro_eq_indexed_core _ _ _ _ _ _ (fun _ h => by cases h) (fun _ h => by cases h)
+    · intro j hj
+      obtain ⟨x, hx⟩ := hall ll hll j hj
+      rw [getElemNode_list_complex e lim _ ll j hll hj hnb] at hx ⊢
+      cases hc : subtreeGet (.pair l r) (coverDepth lim + 1) j with
+      | error err => rw [hc] at hx; cases hx
+      | ok c =>
+        have hb := subtreeGet_ok_bounds hc
+        have hj2 : j < 2 ^ coverDepth lim :=
+          Nat.lt_of_lt_of_le (Nat.lt_of_lt_of_le hj hle) (le_two_pow_coverDepth' lim)
+        rw [subtreeGet_pair_left l r (coverDepth lim) j hb.1 hj2] at hc
+        exact ⟨e, c, rfl, hc, rfl⟩
+
+/-- bitvectors (of at most `2^63` bits, see the remark at `C17_bit_limit_wraps`): whenever every
+    `Get(j)` succeeds, `ReadonlyIter()` and `Iter()` show the same bits -/
+theorem C17_ro_eq_indexed_bitvector (k : Nat) (n : Node) (hk : k ≤ 2 ^ 63)
+    (hall : ∀ j, j < k → ∃ x, getElemNode (.bitvector k) n j = .ok x) (m : Nat) :
+    runSteps AnyIt.next m (start (.bitvector k) n true) =
+      runSteps AnyIt.next m (start (.bitvector k) n false) := by
+  have h1 : start (.bitvector k) n true = .bits (BitIt.new n k (bitDepth k)) := by
+    unfold start; simp
+  have h2 : start (.bitvector k) n false = .indexed (.bitvector k) n k 0 := by
+    unfold start; simp
+  have hbd := bitDepth_bounds k k (Nat.le_refl _) hk
+  rw [h1, h2]
+  apply ro_eq_indexed_bits_core _ _ _ _ _ (Or.inl ⟨k, rfl⟩)
+    (bit_new_not_bad n k (bitDepth k) hbd.1 hbd.2)
+  intro j hj
+  obtain ⟨x, hx⟩ := hall j hj
+  rw [getElemNode_bitvector k n j hj] at hx ⊢
+  cases hc : subtreeGet n (bitDepth k) (j / 256) with
+  | error err => rw [hc] at hx; cases hx
+  | ok c =>
+    cases c with
+    | pair l r => rw [hc] at hx; cases hx
+    | leaf r => exact ⟨r, rfl, rfl⟩
+
+/-- bitlists (limit at most `2^63`) -/
+theorem C17_ro_eq_indexed_bitlist (lim : Nat) (n : Node) (hlim : lim ≤ 2 ^ 63)
+    (hall : ∀ ll, listLength n lim = .ok ll →
+      ∀ j, j < ll → ∃ x, getElemNode (.bitlist lim) n j = .ok x) (m : Nat) :
+    runSteps AnyIt.next m (start (.bitlist lim) n true) =
+      runSteps AnyIt.next m (start (.bitlist lim) n false) := by
+  cases hll : listLength n lim with
+  | error err =>
+    have h1 : ∀ ro, start (.bitlist lim) n ro = .failed := by
+      intro ro; unfold start; simp [hll]
+    rw [h1, h1]
+  | ok ll =>
+    obtain ⟨⟨l, r, rfl⟩, hle⟩ := listLength_ok hll
+    have h1 : start (.bitlist lim) (.pair l r) true = .bits (BitIt.new l ll (bitDepth lim)) := by
+      unfold start; simp [hll]
+    have h2 : start (.bitlist lim) (.pair l r) false = .indexed (.bitlist lim) (.pair l r) ll 0 := by
+      unfold start; simp [hll]
+    have hbd := bitDepth_bounds ll lim hle hlim
+    rw [h1, h2]
+    apply ro_eq_indexed_bits_core _ _ _ _ _ (Or.inr ⟨lim, rfl⟩)
+      (bit_new_not_bad l ll (bitDepth lim) hbd.1 hbd.2)
+    intro j hj
+    obtain ⟨x, hx⟩ := hall ll hll j hj
+    rw [getElemNode_bitlist lim _ ll j hll hj] at hx ⊢
+    have hj2 : j / 256 < 2 ^ bitDepth lim := by
+      have := hbd.2
+      generalize 2 ^ bitDepth lim = X at this
+      omega
+    rw [subtreeGet_pair_left l r (bitDepth lim) (j / 256) (by omega) hj2] at hx ⊢
+    cases hc : subtreeGet l (bitDepth lim) (j / 256) with
+    | error err => rw [hc] at hx; cases hx
+    | ok c =>
+      cases c with
+      | pair l' r' => rw [hc] at hx; cases hx
+      | leaf r' => exact ⟨r', rfl, rfl⟩
+
+/-- vectors of packed basic elements: whenever every `Get(j)` succeeds, `Iter()` shows (as the
+    fresh leaves `BasicView.Backing()` gives) exactly the values `ReadonlyIter()` shows -/
+theorem C17_ro_indexed_basic_vector (e : Ty) (k : Nat) (n : Node) (hbe : isBasicElem e = true)
+    (hall : ∀ j, j < k → ∃ x, getElemNode (.vector e k) n j = .ok x) (m : Nat) :
+    runSteps AnyIt.next m (start (.vector e k) n false) =
+      (runSteps AnyIt.next m (start (.vector e k) n true)).map valToNode := by
+  have h1 : start (.vector e k) n true =
+      .basics (BasicIt.new n k (seriesDepth e k) e.fixedSize) e := by
+    unfold start; simp [hbe]
+  have h2 : start (.vector e k) n false = .indexed (.vector e k) n k 0 := by
+    unfold start; simp
+  have hget : ∀ j, j < k → ∃ v, getElemNode (.vector e k) n j =
+      .ok (e, .leaf (chunkOf (leBytes e.fixedSize (numOf v)))) ∧
+      basicAt e.fixedSize n (seriesDepth e k) j = .ok v := by
+    intro j hj
+    obtain ⟨x, hx⟩ := hall j hj
+    rw [getElemNode_vector_basic e k n j hj hbe] at hx ⊢
+    cases hc : basicAt e.fixedSize n (seriesDepth e k) j with
+    | error err => rw [hc] at hx; cases hx
+    | ok v => exact ⟨v, rfl, rfl⟩
+  rw [h1, h2]
+  exact ro_indexed_basics_core _ e n n k _ (fun _ h => by cases h) (fun _ h => by cases h)
+    (isBasicElem_viewOk e hbe)
+    (basic_not_bad_of_last _ n k _ (fun j hj => (hget j hj).imp fun _ h => h.2)) hget m
+
+/-- lists of packed basic elements -/
+theorem C17_ro_indexed_basic_list (e : Ty) (lim : Nat) (n : Node) (hbe : isBasicElem e = true)
+    (hall : ∀ ll, listLength n lim = .ok ll →
+      ∀ j, j < ll → ∃ x, getElemNode (.list e lim) n j = .ok x) (m : Nat) :
+    runSteps AnyIt.next m (start (.list e lim) n false) =
+      (runSteps AnyIt.next m (start (.list e lim) n true)).map valToNode := by
+  cases hll : listLength n lim with
+  | error err =>
+    have h1 : ∀ ro, start (.list e lim) n ro = .failed := by
+      intro ro; unfold start; simp [hll]
+    rw [h1, h1, anyFailed_run, List.map_replicate]
+    rfl
+  | ok ll =>
+    obtain ⟨⟨l, r, rfl⟩, hle⟩ := listLength_ok hll
+    have h1 : start (.list e lim) (.pair l r) true =
+        .basics (BasicIt.new l ll (seriesDepth e lim) e.fixedSize) e := by
+      unfold start; simp [hll, hbe]
+    have h2 : start (.list e lim) (.pair l r) false = .indexed (.list e lim) (.pair l r) ll 0 := by
+      unfold start; simp [hll]
+    have hget : ∀ j, j < ll → ∃ v, getElemNode (.list e lim) (.pair l r) j =
+        .ok (e, .leaf (chunkOf (leBytes e.fixedSize (numOf v)))) ∧
+        basicAt e.fixedSize l (seriesDepth e lim) j = .ok v := by
+      intro j hj
+      obtain ⟨x, hx⟩ := hall ll hll j hj
+      rw [getElemNode_list_basic e lim _ ll j hll hj hbe] at hx ⊢
+      cases hc : basicAt e.fixedSize (.pair l r) (seriesDepth e lim + 1) j with
+      | error err => rw [hc] at hx; cases hx
+      | ok v =>
+        obtain ⟨h64, _, hp⟩ := basicAt_ok_bounds hc
+        have hsd : seriesDepth e lim = coverDepth (bottomNodes e.fixedSize lim) := by
+          unfold seriesDepth; rw [if_pos hbe]
+        have hpos := basic_list_pos_bound e.fixedSize lim j hp (by omega)
+        rw [← hsd] at hpos
+        rw [basicAt_pair_left e.fixedSize l r _ j h64 hpos] at hc
+        exact ⟨v, rfl, hc⟩
+    rw [h1, h2]
+    exact ro_indexed_basics_core _ e _ l ll _ (fun _ h => by cases h) (fun _ h => by cases h)
+      (isBasicElem_viewOk e hbe)
+      (basic_not_bad_of_last _ l ll _ (fun j hj => (hget j hj).imp fun _ h => h.2)) hget m
+
+/-- Remark (a finding about the Go code, confirmed on the real library): for a bitfield whose
+    contents subtree is 56 or more deep (more than `2^63` bits of limit) the construction check
+    `(1 << depth) << 8` of `bitReadonlyIter` wraps to 0, so `ReadonlyIter()` of every non-empty
+    such bitfield fails although `Get`/`Iter()` work.  In the model: -/
+theorem C17_bit_limit_wraps (anchor : Node) (length depth : Nat) (hd : 56 ≤ depth) (hl : 0 < length) :
+    (BitIt.new anchor length depth).bad = true := by
+  unfold BitIt.new
+  simp only [decide_eq_true_eq]
+  by_cases h64 : depth ≥ 64
+  · rw [if_pos h64]; omega
+  · rw [if_neg h64]
+    obtain ⟨x, rfl⟩ : ∃ x, depth = 56 + x := ⟨depth - 56, by omega⟩
+    have : 2 ^ (56 + x) * 256 = 2 ^ 64 * 2 ^ x := by
+      rw [Nat.pow_add, Nat.mul_right_comm]
+    rw [this, Nat.mul_mod_right]
+    exact hl
+
+/-! ### 6. non-vacuity: concrete small trees (`ZtypV.View.Iter.Ex`) -/
+
+section Examples
+open Ex
+
+/-- depth 2, 3 of 4 positions: three items in order, then `done` and `done` again -/
+example : runSteps NodeIt.next 5 (NodeIt.new full 3 2) =
+    [.item a, .item b, .item c, .done, .done] := by rfl
+
+/-- positions 2 and 3 missing (summary leaf): two items, then the navigation error, sticky -/
+example : runSteps NodeIt.next 5 (NodeIt.new part 3 2) =
+    [.item a, .item b, .err .nav, .err .nav, .err .nav] := by rfl
+
+/-- the hypotheses of `C17_nav_step` are satisfiable; first step on `full` -/
+example : ∃ st', navStep full 2 (Array.replicate 2 (.leaf z0)) 0 = .ok (a, st') ∧
+    StackFull full 2 st' 0 :=
+  C17_nav_step full 2 _ 0 (by decide) (by decide) (StackInv_new _ _ _)
+
+/-- … and a backtracking step: index 2 from the stack left by index 1 -/
+example : navStep full 2 #[full, .pair a b] 2 = .ok (c, #[full, .pair c d]) := by rfl
+
+/-- the hypotheses of `C17_node_iter_all_ok` / `_first_err` are satisfiable -/
+example (n : Nat) : runSteps NodeIt.next n (NodeIt.new full 3 2) =
+    (List.range (min n 3)).map (fun k => Step.item ([a, b, c].getD k a)) ++
+      List.replicate (n - 3) .done :=
+  C17_node_iter_all_ok full 3 2 rfl (fun k => [a, b, c].getD k a)
+    (fun k hk => match k, hk with
+      | 0, _ => rfl
+      | 1, _ => rfl
+      | 2, _ => rfl) n
+
+example (n : Nat) : runSteps NodeIt.next n (NodeIt.new part 3 2) =
+    (List.range (min n 2)).map (fun k => Step.item ([a, b].getD k a)) ++
+      List.replicate (n - 2) (.err .nav) :=
+  C17_node_iter_first_err part 3 2 rfl (fun k => [a, b].getD k a) 2 .nav (by decide)
+    (fun k hk => match k, hk with
+      | 0, _ => rfl
+      | 1, _ => rfl) rfl n
+
+/-- a failed construction: 5 nodes do not fit depth 2 -/
+example : (NodeIt.new full 5 2).bad = true ∧
+    (NodeIt.new full 5 2).next = (.err .other, NodeIt.new full 5 2) :=
+  ⟨rfl, C17_node_bad _ rfl⟩
+
+/-- packed uint64 (4 per chunk), 6 elements over two chunks: ends inside the second chunk -/
+example : runSteps BasicIt.next 8 (BasicIt.new two 6 1 8) =
+    (List.range 6).map (fun k => Step.item (Val.num
+      (leNat (((if k < 4 then ch0 else ch1).drop (8 * (k % 4))).take 8)))) ++ [.done, .done] := by
+  rfl
+
+example : runSteps BasicIt.next 3 (BasicIt.new two 6 1 8) =
+    [.item (.num 0x0706050403020100), .item (.num 0x0f0e0d0c0b0a0908),
+     .item (.num 0x1716151413121110)] := by rfl
+
+/-- the second bottom position is not a chunk: four elements, then an error, sticky -/
+example : runSteps BasicIt.next 7 (BasicIt.new twoBad 6 1 8) =
+    (List.range 4).map (fun k => Step.item (Val.num (leNat ((ch0.drop (8 * k)).take 8)))) ++
+      [.err .other, .err .other, .err .other] := by rfl
+
+set_option maxRecDepth 20000 in
+/-- 258 bits over two chunks: bit 255 (last of chunk 0), bit 256 (first of chunk 1: the uint8
+    counter wrapped to 0 and a new chunk was fetched), bit 257, then the end, twice -/
+example : (runSteps BitIt.next 260 (BitIt.new twoBits 258 1)).drop 254 =
+    [.item false, .item true, .item true, .item false, .done, .done] := by rfl
+
+/-- the wrap itself, on the state before bit 255 -/
+example : (let it : BitIt := ⟨twoBits, 258, 1, #[twoBits], 255, 255, bits0, 1, false⟩
+    (it.next.1, it.next.2.j, it.next.2.next.1, it.next.2.next.2.j, it.next.2.next.2.rootIndex)) =
+    (.item true, 0, .item true, 1, 2) := by rfl
+
+/-- a list of three 32-byte roots (limit 4): both iterators, five calls -/
+example : runSteps AnyIt.next 5 (start (.list (.bytesN 32) 4) (.pair full (lengthNode 3)) true) =
+    [.node (.bytesN 32) a, .node (.bytesN 32) b, .node (.bytesN 32) c, .done, .done] := by rfl
+
+example : runSteps AnyIt.next 5 (start (.list (.bytesN 32) 4) (.pair full (lengthNode 3)) false) =
+    [.node (.bytesN 32) a, .node (.bytesN 32) b, .node (.bytesN 32) c, .done, .done] := by rfl
+
+/-- the hypotheses of the three `C17_ro_eq_indexed_*` theorems are satisfiable -/
+example (m : Nat) :
+    runSteps AnyIt.next m (start (.list (.bytesN 32) 4) (.pair full (lengthNode 3)) true) =
+      runSteps AnyIt.next m (start (.list (.bytesN 32) 4) (.pair full (lengthNode 3)) false) :=
+  C17_ro_eq_indexed_list (.bytesN 32) 4 _ rfl
+    (fun ll hll => by
+      have h3 : listLength (.pair full (lengthNode 3)) 4 = .ok 3 := rfl
+      rw [h3] at hll
+      cases hll
+      intro j hj
+      match j, hj with
+      | 0, _ => exact ⟨_, rfl⟩
+      | 1, _ => exact ⟨_, rfl⟩
+      | 2, _ => exact ⟨_, rfl⟩) m
+
+example (m : Nat) :
+    runSteps AnyIt.next m (start (.vector (.bytesN 32) 3) full true) =
+      runSteps AnyIt.next m (start (.vector (.bytesN 32) 3) full false) :=
+  C17_ro_eq_indexed_vector (.bytesN 32) 3 full rfl
+    (fun j hj => match j, hj with
+      | 0, _ => ⟨_, rfl⟩
+      | 1, _ => ⟨_, rfl⟩
+      | 2, _ => ⟨_, rfl⟩) m
+
+example (m : Nat) :
+    runSteps AnyIt.next m (start (.container [.bytesN 32, .uint 8, .bool]) full true) =
+      runSteps AnyIt.next m (start (.container [.bytesN 32, .uint 8, .bool]) full false) :=
+  C17_ro_eq_indexed_container [.bytesN 32, .uint 8, .bool] full
+    (fun j hj => match j, hj with
+      | 0, _ => ⟨_, rfl⟩
+      | 1, _ => ⟨_, rfl⟩
+      | 2, _ => ⟨_, rfl⟩) m
+
+/-- when an access fails the two iterators differ (so the hypothesis of `C17_ro_eq_indexed_*`
+    is needed): the read-only iterator repeats the error, the index-based one moves on -/
+example : runSteps AnyIt.next 4 (start (.vector (.bytesN 32) 4) part true) =
+      [.node (.bytesN 32) a, .node (.bytesN 32) b, .err, .err] ∧
+    runSteps AnyIt.next 5 (start (.vector (.bytesN 32) 4) part false) =
+      [.node (.bytesN 32) a, .node (.bytesN 32) b, .err, .err, .done] := ⟨rfl, rfl⟩
+
+/-- the index-based iterator in closed form -/
+example : runSteps AnyIt.next 5 (.indexed (.vector (.bytesN 32) 3) full 3 0) =
+    [.node (.bytesN 32) a, .node (.bytesN 32) b, .node (.bytesN 32) c, .done, .done] := by
+  rw [C17_indexed_iter]; rfl
+
+/-- bitfields: hypotheses of `C17_ro_eq_indexed_bitvector` / `_bitlist` are satisfiable
+    (258 bits: the length ends just after a 256-bit chunk) -/
+example (m : Nat) :
+    runSteps AnyIt.next m (start (.bitvector 258) twoBits true) =
+      runSteps AnyIt.next m (start (.bitvector 258) twoBits false) :=
+  C17_ro_eq_indexed_bitvector 258 twoBits (by decide)
+    (fun j hj => by
+      rw [getElemNode_bitvector 258 twoBits j hj]
+      have h : j / 256 = 0 ∨ j / 256 = 1 := by omega
+      rcases h with h | h <;> rw [h] <;> exact ⟨_, rfl⟩) m
+
+example (m : Nat) :
+    runSteps AnyIt.next m (start (.bitlist 300) (.pair twoBits (lengthNode 258)) true) =
+      runSteps AnyIt.next m (start (.bitlist 300) (.pair twoBits (lengthNode 258)) false) :=
+  C17_ro_eq_indexed_bitlist 300 _ (by decide)
+    (fun ll hll j hj => by
+      rw [getElemNode_bitlist 300 _ ll j hll hj]
+      have h3 : listLength (.pair twoBits (lengthNode 258)) 300 = .ok 258 := rfl
+      rw [h3] at hll
+      cases hll
+      have h : j / 256 = 0 ∨ j / 256 = 1 := by omega
+      rcases h with h | h <;> rw [h] <;> exact ⟨_, rfl⟩) m
+
+example : runSteps AnyIt.next 3 (start (.bitlist 300) (.pair twoBits (lengthNode 258)) true) =
+    [.bit false, .bit false, .bit false] := by rfl
+
+/-- packed basics: hypotheses of `C17_ro_indexed_basic_vector` / `_list` are satisfiable -/
+example (m : Nat) :
+    runSteps AnyIt.next m (start (.vector (.uint 8) 6) two false) =
+      (runSteps AnyIt.next m (start (.vector (.uint 8) 6) two true)).map valToNode :=
+  C17_ro_indexed_basic_vector (.uint 8) 6 two rfl
+    (fun j hj => match j, hj with
+      | 0, _ => ⟨_, rfl⟩
+      | 1, _ => ⟨_, rfl⟩
+      | 2, _ => ⟨_, rfl⟩
+      | 3, _ => ⟨_, rfl⟩
+      | 4, _ => ⟨_, rfl⟩
+      | 5, _ => ⟨_, rfl⟩) m
+
+example (m : Nat) :
+    runSteps AnyIt.next m (start (.list (.uint 8) 8) (.pair two (lengthNode 6)) false) =
+      (runSteps AnyIt.next m (start (.list (.uint 8) 8) (.pair two (lengthNode 6)) true)).map
+        valToNode :=
+  C17_ro_indexed_basic_list (.uint 8) 8 _ rfl
+    (fun ll hll => by
+      have h3 : listLength (.pair two (lengthNode 6)) 8 = .ok 6 := rfl
+      rw [h3] at hll
+      cases hll
+      intro j hj
+      match j, hj with
+      | 0, _ => exact ⟨_, rfl⟩
+      | 1, _ => exact ⟨_, rfl⟩
+      | 2, _ => exact ⟨_, rfl⟩
+      | 3, _ => exact ⟨_, rfl⟩
+      | 4, _ => exact ⟨_, rfl⟩
+      | 5, _ => exact ⟨_, rfl⟩) m
+
+example : runSteps AnyIt.next 2 (start (.list (.uint 8) 8) (.pair two (lengthNode 6)) true) =
+    [.val (.uint 8) (.num 0x0706050403020100), .val (.uint 8) (.num 0x0f0e0d0c0b0a0908)] := by rfl
+
+/-- the wrap of the construction check: depth 56, one bit -/
+example : (BitIt.new (.leaf z0) 1 56).bad = true := C17_bit_limit_wraps _ 1 56 (by decide) (by decide)
+
+end Examples
+
 end ZtypV.Props.C17
